@@ -187,11 +187,16 @@ int part_a(Reader& r, bool& nontrivial, std::string& desc) {
 // ---------------------------------------------------------------- part B: misuse while the lock is held
 struct BCase { int misuse; int fam; int size; int after_allocs; int output; int swap; };   // swap: the global detector is replaced while the thread-safe mode is on   // output: 0 string buffer, 1 collecting (keeps new-ed copies of failures, like JUnit), 2 JUnitTestOutput
 BCase g_b; int g_b_continued;
+// kind 3: the platform allocator fails once while a thread-safe overload holds the lock (the allocator reports it as a test failure)
+void* (*g_real_malloc)(size_t); bool g_fail_next_malloc;
+void* failing_malloc(size_t n) { if (g_fail_next_malloc) { g_fail_next_malloc = false; return nullptr; } return g_real_malloc(n); }
 void part_b_body(void*) {
     // runs as a test body with the thread-safe overloads ON and the default global detector/reporter
     void* vp;
+    if (g_b.misuse == 3) g_fail_next_malloc = true;
     if (g_b.fam == 0) vp = ::operator new((size_t)g_b.size); else if (g_b.fam == 1) vp = ::operator new[]((size_t)g_b.size); else vp = cpputest_malloc_location((size_t)g_b.size, "b.c", 1);
     char* p = (char*)vp;
+    g_fail_next_malloc = false;
     switch (g_b.misuse) {
     case 0: p[g_b.size] = 'X'; break;                                        // overrun into the guard bytes
     case 1: { static char foreign[8]; if (g_b.fam == 2) cpputest_free_location(foreign, "b.c", 2); else ::operator delete(foreign); } break;   // not allocated
@@ -250,13 +255,17 @@ int run_part_b(std::string& desc, bool& reported, long& locks, long& unlocks, in
 }
 int part_b(Reader& r, bool& nontrivial, std::string& desc) {
     g_b.misuse = (int)r.below(3); g_b.fam = (int)r.below(3); g_b.size = 1 + (int)r.below(64); g_b.after_allocs = 1 + (int)r.below(3); g_b.output = (int)r.below(3); g_b.swap = r.below(3) == 1;
-    static const char* MN[] = {"guard overrun", "release of a foreign address", "family mismatch"}; static const char* FN[] = {"new", "new[]", "malloc"};
+    if (r.below(4) == 1) g_b.misuse = 3;   // decoded last: earlier inputs keep their meaning
+    static const char* MN[] = {"guard overrun", "release of a foreign address", "family mismatch", "platform allocator failing under the lock"}; static const char* FN[] = {"new", "new[]", "malloc"};
     static const char* ON[] = {"string-buffer output", "collecting output", "JUnit output"};
     desc = sfmt("B: %s%s on a %s block of %d bytes, %s, then %d more allocations", g_b.swap ? "global detector replaced while the mode is on, " : "", MN[g_b.misuse], FN[g_b.fam], g_b.size, ON[g_b.output], g_b.after_allocs);
     if (g_b.swap) verif::cls("B:detector-replaced-in-thread-safe-mode");
     verif::cls(sfmt("B:%s", MN[g_b.misuse]).c_str()); verif::cls(sfmt("B:%s", ON[g_b.output]).c_str());
     nontrivial = true;
     if (verif::known("C10:lock-held-after-misuse")) return 0;      // listed finding: exactly this scenario is excluded (and counted)
+    // listed finding: the allocator's own "malloc returned null pointer" failure is reported with the lock held; an output that
+    // allocates through operator new while printing it re-acquires the lock (excluded exactly: kind 3 with such an output)
+    if (g_b.misuse == 3 && g_b.output != 0 && verif::known("C10:allocator-failure-reported-under-the-lock")) return 0;
     bool reported; long locks, unlocks; int relock;
     run_part_b(desc, reported, locks, unlocks, relock);
     V_CHECK(reported, "C10:misuse-not-reported", "misuse in thread-safe mode was not recorded as a test failure [%s]", desc.c_str());
@@ -275,6 +284,7 @@ extern "C" void verif_init(void) {
     g_real_lock = PlatformSpecificMutexLock; g_real_unlock = PlatformSpecificMutexUnlock;
     PlatformSpecificMutexLock = seam_lock; PlatformSpecificMutexUnlock = seam_unlock;
     PlatformSpecificFOpen = null_fopen; PlatformSpecificFPuts = null_fputs; PlatformSpecificFClose = null_fclose;   // JUnit files go nowhere
+    g_real_malloc = PlatformSpecificMalloc; PlatformSpecificMalloc = failing_malloc;
 }
 extern "C" int verif_case(const uint8_t* data, size_t size) {
     Reader r(data, size);
@@ -285,8 +295,9 @@ extern "C" int verif_case(const uint8_t* data, size_t size) {
     return rc;
 }
 extern "C" int verif_known_repro(const char* key) {
-    if (std::string(key) != "C10:lock-held-after-misuse") return -1;
-    g_b = BCase{0, 1, 8, 1, 0, 0};
+    if (std::string(key) == "C10:allocator-failure-reported-under-the-lock") g_b = BCase{3, 1, 8, 1, 1, 0};
+    else if (std::string(key) == "C10:lock-held-after-misuse") g_b = BCase{0, 1, 8, 1, 0, 0};
+    else return -1;
     std::string d; bool reported; long locks, unlocks; int relock;
     run_part_b(d, reported, locks, unlocks, relock);
     return (relock != 0 || locks != unlocks) ? 1 : 0;
